@@ -12,13 +12,13 @@ for h, (macro, unit, comp) in HASHES.items():
     lmax = 70 if bs == 64 else 140
     OBLIGATIONS.append({"id": "C03-a.%s.chunking" % h, "harness": "harness/C03/chunk.c", "entry": "h_chunking", "units": [unit],
                         "remove": {unit: [comp]}, "defs": ["-D" + macro, "-DLMAX=%d" % lmax], "unwind": lmax + 3 * bs + 8, "timeout": 1200,
-                        "tier": "thorough", "backend": "cadical", "mem_gb": 24,
+                        "tier": "thorough", "backend": "cadical", "mem_gb": 24 if bs == 64 else 28,
                         "title": "%s init/update x3/finish: blocks compressed = msg || 0x80 || 0* || bitlen for every message and every 3-way split" % h,
                         "bounds": "message length 0..%d bytes, both split points arbitrary" % lmax,
                         "stubs": ["compression function = block recorder"]})
     OBLIGATIONS.append({"id": "C03-a.%s.chunking_small" % h, "harness": "harness/C03/chunk.c", "entry": "h_chunking", "units": [unit],
                         "remove": {unit: [comp]}, "defs": ["-D" + macro, "-DLMAX=20"], "unwind": 20 + 3 * bs + 8, "timeout": 600,
-                        "tier": "quick" if h in ("sm3", "sha256") else "thorough", "backend": "cadical",
+                        "tier": "quick" if h in ("sm3", "sha256") else "thorough", "backend": "cadical", "mem_gb": 16 if bs == 64 else 24,
                         "title": "%s init/update x3/finish: blocks compressed = msg || pad for every message <= 20 bytes and every 3-way split" % h,
                         "bounds": "message length 0..20 bytes, both split points arbitrary (block-boundary crossings: thorough tier, 0..%d bytes)" % lmax,
                         "stubs": ["compression function = block recorder"]})
